@@ -897,7 +897,11 @@ impl Prop for ServerProp {
             if let (Some(r), Some(ac), Some(h)) = (readable, accepted, handled) {
                 let start = r.max(ac);
                 let items = w.stream_item_seqs.iter().filter(|q| **q > start && **q < h).count();
-                if items > 2 {
+                // (The statement gives no number. Calls win the server's biased select, so on this tree
+                // it is at most the one item in flight; a server that forwards a small batch of ready
+                // items per turn would still be serving everybody. What is not allowed is a number
+                // that grows with the length of the stream.)
+                if items > 16 {
                     return Err((
                         "C10/other-client-not-served-while-stream-open".into(),
                         format!("client {} had a complete call readable from event {start} on; the server forwarded {items} more items of client {}'s open reply stream before it handled that call at event {h}", sc.clients[b].cid, sc.clients[a].cid),
